@@ -190,13 +190,13 @@ func (d *digits) next(n int) int {
 
 // Sizes of the elementary products.
 var (
-	nEntry  = uint64(len(U64) * len(U64) * len(SmallBytes) * len(Types)) // 192
-	nAEHead = uint64(len(IDs) * len(U64) * len(U64) * len(U64) * len(U64)) // 768
-	nAEResp = uint64(len(U64) * 2 * len(U64))                             // 32
-	nRVReq  = uint64(len(IDs) * len(U64) * len(U64) * len(U64) * 2)       // 384
-	nRVResp = uint64(len(U64) * 2)                                        // 8
+	nEntry  = uint64(len(U64) * len(U64) * len(SmallBytes) * len(Types))                         // 192
+	nAEHead = uint64(len(IDs) * len(U64) * len(U64) * len(U64) * len(U64))                       // 768
+	nAEResp = uint64(len(U64) * 2 * len(U64))                                                    // 32
+	nRVReq  = uint64(len(IDs) * len(U64) * len(U64) * len(U64) * 2)                              // 384
+	nRVResp = uint64(len(U64) * 2)                                                               // 8
 	nISHead = uint64(len(IDs) * len(U64) * len(U64) * len(U64) * len(SmallBytes) * len(I64) * 2) // 9216
-	nISResp = uint64(len(U64) * len(I64))                                 // 24
+	nISResp = uint64(len(U64) * len(I64))                                                        // 24
 )
 
 // entryAt: Index x Term x Data x Type. Offset is NOT part of the product: the
@@ -303,21 +303,6 @@ func rot(i, n uint64) uint64 { return (i + i/n) % n }
 
 // Star designs ("one field away from the default" plus the all-maximal
 // corner) for the parts where the full product would move too many bytes.
-
-// aeHeadStar: the default header, every header with exactly one field at a
-// non-default domain value, and the all-maximal header: 1 + 2 + 4*3 + 1 = 16.
-func aeHeadStar() []AEReq {
-	out := []AEReq{{}}
-	for _, s := range IDs[1:] {
-		out = append(out, AEReq{LeaderID: s})
-	}
-	for _, v := range U64[1:] {
-		out = append(out, AEReq{Term: v}, AEReq{LeaderCommit: v}, AEReq{PrevLogIndex: v}, AEReq{PrevLogTerm: v})
-	}
-	m := uint64(math.MaxUint64)
-	out = append(out, AEReq{LeaderID: IDs[2], Term: m, LeaderCommit: m, PrevLogIndex: m, PrevLogTerm: m})
-	return out
-}
 
 // aeHeadPairwise: every header in which at most two of the five fields differ
 // from their default (the full product of every PAIR of header fields with
